@@ -99,7 +99,9 @@ def run_config(res, n, d, fc, sc, ks, queries, stats):
     rng = res.rng
     top = common.scratch_dir()
     nf = common.number_form
-    w = digital_rf.DigitalMetadataWriter(common.path_form(top), nf(rng, sc), nf(rng, fc), nf(rng, n), nf(rng, d), PREFIX)
+    forms = [nf(rng, sc), nf(rng, fc), nf(rng, n), nf(rng, d)]
+    arg_types = [type(x).__name__ for x in forms]      # how (subdir cadence, file cadence, numerator, denominator) are passed
+    w = digital_rf.DigitalMetadataWriter(common.path_form(top), forms[0], forms[1], forms[2], forms[3], PREFIX)
     i = 0
     while i < len(ks):
         m = rng.choice([1, 1, 2, 3, 5])
@@ -114,7 +116,7 @@ def run_config(res, n, d, fc, sc, ks, queries, stats):
     where, files = walk_samples(top)
     fileset = set(files)
     rd = digital_rf.DigitalMetadataReader(common.path_form(top))
-    cfgi = {"n": n, "d": d, "fc": fc, "sc": sc}
+    cfgi = {"n": n, "d": d, "fc": fc, "sc": sc, "arg_types": arg_types}
     # ---- model (both variants) for every written sample
     mE = model_paths(0, n, d, fc, sc, ks)
     mL = model_paths(1, n, d, fc, sc, ks)
@@ -473,7 +475,10 @@ def replay(res, rp):
         bad = (got == "accepted") != same or tree_hash(top) != h0 and not same or bool(lost)
         print("REPRODUCED" if bad else "not reproduced")
         return 1 if bad else 0
-    w = digital_rf.DigitalMetadataWriter(top, sc, fc, n, d, PREFIX)
+    at = i.get("arg_types") or ["int"] * 4
+    F = common.number_from_form
+    print("subdir cadence, file cadence, numerator, denominator passed as", at)
+    w = digital_rf.DigitalMetadataWriter(top, F(at[0], sc), F(at[1], fc), F(at[2], n), F(at[3], d), PREFIX)
     ks = sorted(set([k] + list(i.get("others", [])) + list(i.get("written", []))))
     for x in ks:
         w.write(x, {"v": 1})
